@@ -267,7 +267,7 @@ def main(tier, seed):
     cov["rule"] = ("geometries (addr 0-5, data 8-64, granularity) x decoder feature subsets (quick: none/all/singles; thorough: all 64) x "
                    "1-3 windows (dense equal granularity, sparse; explicit/implicit/align_to/alignment; feature policies); every output "
                    "over the union of structural and declared input support")
-    return finish(PID, tier, seed, "model_checking", cov, ASSUMPTIONS, t0, results)
+    return finish(PID, tier, seed, "model_checking", cov, ASSUMPTIONS, t0, results, min_explored=int(0.9 * len(results)))
 
 
 ASSUMPTIONS = [
